@@ -81,6 +81,47 @@ def _splice(rec, bi, callee, glue, dest, target, unwind, stack, ret_wrap=None):
     return loff, boff
 
 
+def _instantiate(fx, blocks, g, t):
+    """the type arguments of the call site, substituted into the copied callee: a trait method called on one of the callee's
+    type parameters (`change.apply(..)` with `change: impl TableChange<T>`) is resolved to the implementation for the
+    argument type the caller passes (`<Subscribe<T> as TableChange<T>>::apply`), so that it can be inlined in turn"""
+    gen = g.get("generics") or (fx.fn(g.get("root") or "") or {}).get("generics") or []
+    ga = t.get("gargs") or []
+    if not gen or len(ga) < len(gen):
+        return
+    # an inherent / trait method's generics are listed after those of its impl: align from the end
+    sub = {gen[i]: ga[len(ga) - len(gen) + i] for i in range(len(gen))}
+    sub = {k: v for k, v in sub.items() if k != v}
+    if not sub:
+        return
+
+    def subst(s):
+        if s in sub:
+            return sub[s]
+        for k, v in sub.items():
+            if len(k) > 2 and k in s:
+                s = s.replace(k, v)
+        return s
+    for blk in blocks:
+        ct = blk["t"]
+        if ct.get("k") != "call":
+            continue
+        if ct.get("gargs"):
+            ct["gargs"] = [subst(x) for x in ct["gargs"]]
+        if ct.get("argtys"):
+            ct["argtys"] = [subst(x) for x in ct["argtys"]]
+        st_ = ct.get("self_ty")
+        if st_ and ct.get("trait") and not ct.get("resolved") and subst(st_) != st_:
+            conc = subst(st_)
+            ct["self_ty"] = conc
+            base = conc.split("<")[0]
+            meth = (ct.get("callee") or "").split("::")[-1]
+            impls = [h for h in fx.d["fns"] if h.get("impl_trait_def") == ct["trait"] and h["def"].endswith("::" + meth) and (h.get("impl_self") or "").split("<")[0] == base]
+            if len(impls) == 1:
+                ct["resolved"] = impls[0]["def"]
+                ct["resolved_local"] = True
+
+
 def inlined(fx, f, pred=None, depth=3, stage="pre"):
     """function record with the accepted crate-local callees inlined (cached per facts, function and predicate name)"""
     cache = fx.__dict__.setdefault("_inline_cache", {})
@@ -188,7 +229,9 @@ def inlined(fx, f, pred=None, depth=3, stage="pre"):
                     else:
                         res.append(item)
                 return res
+            n_before = len(rec["blocks"])
             _splice(rec, bi, g, glue2, t["dest"], t["target"], t.get("unwind"), stack + (g["def"],), ret_wrap)
+            _instantiate(fx, rec["blocks"][n_before:], g, t)
             out["inlined_from"].append(g["def"])
             progress = True
     cache[key] = out
